@@ -4,6 +4,7 @@ import Vanguard.Model.Percent
 import Vanguard.Model.Timeout
 import Vanguard.Model.Router
 import Driver.E2E
+import Vanguard.Model.Pool
 /-!
   Line protocol: one operation per line, `op arg …` (byte strings in hex, `-` = empty,
   numbers in decimal); one canonical result per line.  The Go harness prints the
@@ -110,6 +111,18 @@ def dispatch : List String → String
     | _, _ => "bad-arg"
   | ["e2e", h] => runE2E h
   | ["e2e_fresh", h] => runE2E h
+  | "e2e_conc" :: hs => " ## ".intercalate (hs.map runE2E) ++ " ## pool=ok"
+  | ["pool_trace", t] =>
+    let evs := (t.splitOn ",").map fun ev =>
+      match ev.toList with
+      | 'g' :: d => (String.ofList d).toNat?.map fun id => OwnEv.get 0 id false
+      | 'r' :: d => (String.ofList d).toNat?.map fun id => OwnEv.get 0 id true
+      | 'p' :: d => (String.ofList d).toNat?.map fun id => OwnEv.put 0 id
+      | 'd' :: d => (String.ofList d).toNat?.map fun id => OwnEv.drop 0 id
+      | _ => none
+    if evs.any Option.isNone then "bad-op"
+    else if checkTrace (evs.filterMap id) then "exclusive" else "shared"
+  | ["e2e_hist", h] => runE2E h ++ " ## " ++ runE2E h
   | ["e2e_getpost", a, b] => runE2E a ++ " ## " ++ runE2E b
   | ["e2e_pair", a, b] => projectForChunking (runE2E a) ++ " ## " ++ projectForChunking (runE2E b)
   | _ => "bad-op"
